@@ -10,7 +10,7 @@ From Coq Require Import List Arith Bool NArith ZArith String.
 Import ListNotations.
 (* the full model first: the names it shares with the fragment model (tok, TOp, not_lt, ..) then denote the fragment's *)
 From SV Require Import C08.FSyntax C08.FModelTypes C08.FModelExpr C08.FModelDecl C08.FProofsGen C08.FProofsTypes C08.FProofsExprFuel
-  C08.FProofsExpr C08.FProofsImpl C08.FProofsDecl.
+  C08.FProofsExpr C08.FProofsImpl C08.FProofsDecl C08.FProofsImage.
 From SV Require Import C08.Syntax C08.Model C08.Proofs C08.ProofsImpl C08.Layout C08.LayoutProofs C08.Lit C08.LitProofs.
 
 (* the grammar's own minimal-parenthesis printer is read back by the parser's level structure *)
@@ -220,6 +220,30 @@ Theorem C08_K7_witness : module_ok k7_module = true /\ module_known k7_module = 
   resolve (fst k7_module) 10 = Some [(false, 11)] /\ resolve [([10], [(false, 11)]); ([10], [(false, 12)])] 10 = Some [(false, 12)].
 Proof. exact K7_witness. Qed.
 
+(* ---- the domain of the round-trip theorems contains everything the parser produces; hence the property for
+   every token list that parses *)
+Theorem C08_parse_module_in_domain : forall ts m, parse_module ts = Some m -> module_ok m = true.
+Proof. exact parse_module_ok. Qed.
+
+Theorem C08_parse_expression_in_domain : forall tps ts e, parse_fexpr tps ts = Some e -> fwf tps e = true.
+Proof. exact parse_fexpr_ok. Qed.
+
+Theorem C08_format_preserves_parsed_module : forall ts m, parse_module ts = Some m -> module_known m = false ->
+  parse_module (fimpl_module m) = Some (organise (fst m), snd m).
+Proof. exact format_preserves_parsed_module. Qed.
+
+Theorem C08_format_preserves_parsed_expression : forall tps ts e, parse_fexpr tps ts = Some e -> fknown e = false ->
+  parse_fexpr tps (fimpl e) = Some e.
+Proof. exact format_preserves_parsed_expression. Qed.
+
+(* repaired by 70138aa: 17 identifiers in parentheses are no tuple any more (they are still lambda parameters) *)
+Theorem C08_tuple_limit_repaired :
+  parse_fexpr [] tuple17_toks = None /\
+  parse_fexpr [] (TP LParen :: commas (map (fun n => [TLow n]) (seq 0 16)) ++ [TP RParen]) = Some (XTuple (map XId (seq 0 16))) /\
+  parse_fexpr [] (tuple17_toks ++ [TP Arrow; TLow 0]) = Some (XLam (map (fun n => (n, None)) ids17) (XId 0)) /\
+  fwf [] (XTuple (map XId ids17)) = false.
+Proof. exact tuple_limit_repaired. Qed.
+
 (* ---- non-vacuity *)
 Definition C08_sample_module : module :=
   ([([12; 11], [(false, 13); (true, 10)]); ([14], [(false, 12)]); ([10], [(false, 13); (true, 10)])],
@@ -293,3 +317,8 @@ Print Assumptions C08_resolve_organise.
 Print Assumptions C08_module_denotation_preserved.
 Print Assumptions C08_module_denotation_refuted.
 Print Assumptions C08_K7_witness.
+Print Assumptions C08_parse_module_in_domain.
+Print Assumptions C08_parse_expression_in_domain.
+Print Assumptions C08_format_preserves_parsed_module.
+Print Assumptions C08_format_preserves_parsed_expression.
+Print Assumptions C08_tuple_limit_repaired.
